@@ -160,7 +160,8 @@ Record sess_step := {
   ss_acked : Z;                    (* id acknowledged by this step, -1 = none *)
   ss_res : Z                       (* 0 ok | 1 skipped | 2 no retransmission seen before the deadline | 3 anomaly *)
 }.
-Record sess_case := { sc_subqos : Z; sc_steps : list sess_step; sc_bad : bool }.
+(** [sc_start]: Session.nextID when the scenario begins (the harness may start near the uint16 wrap-around) *)
+Record sess_case := { sc_subqos : Z; sc_start : Z; sc_steps : list sess_step; sc_bad : bool }.
 
 Definition to_emit (p : Z * Z * Z) : emit := let '(id, q, m) := p in Pkt id q m.
 
@@ -255,9 +256,11 @@ Definition sess_class (c : sess_case) : N :=
       (1 + bN dup 1 + bN ack 2 + bN quiet 4 + bN q0 8)%N
   end.
 
+Definition sess_from (start : Z) : sess := {| pending := []; queue := []; nextID := wrap16 start |}.
+
 Definition check_sess (c : sess_case) : result :=
   (negb (sc_bad c) && forallb (fun st => negb (ss_res st =? 3)) (sc_steps c) &&
-   sess_corr (sc_subqos c) sess0 0 (sc_steps c),
+   sess_corr (sc_subqos c) (sess_from (sc_start c)) 0 (sc_steps c),
    sess_prop c, sess_class c, 0%N).
 
 Fixpoint explain_sess_aux (subqos : Z) (s : sess) (npub : Z) (steps : list sess_step) :=
@@ -267,7 +270,7 @@ Fixpoint explain_sess_aux (subqos : Z) (s : sess) (npub : Z) (steps : list sess_
       let '(s', e, npub') := sess_effect subqos s npub st in
       (e, snd (tick s), snd (tick s'), split_ok s s' e (map to_emit (ss_recv st))) :: explain_sess_aux subqos s' npub' t
   end.
-Definition explain_sess (c : sess_case) := explain_sess_aux (sc_subqos c) sess0 0 (sc_steps c).
+Definition explain_sess (c : sess_case) := explain_sess_aux (sc_subqos c) (sess_from (sc_start c)) 0 (sc_steps c).
 
 (** * cpub: client PUBLISH *)
 
@@ -328,6 +331,36 @@ Definition check_cpub (c : cpub_case) : result :=
 
 Definition explain_cpub (c : cpub_case) :=
   cpub_run (cc_pipe c) (mqtt_new (cc_req c) (cc_bytes c) (cc_period c)) (cc_pubs c).
+
+(** * slow: a client that stops reading while more than the write queue's 50 packets are waiting for it, for longer
+    than any give-up timer, then drains - observations only, no model *)
+Record slow_case := {
+  sl_full : bool;               (* the harness saw the broker's write queue of the client full *)
+  sl_subs_sent : Z; sl_subacks : Z;
+  sl_ids : list Z;              (* packet ids of the QoS 1 PUBLISHes the client sent while stalled *)
+  sl_pubacks : list Z;
+  sl_http1 : Z; sl_q1 : Z;      (* QoS 1 messages published to it over HTTP while stalled / of those received (distinct) *)
+  sl_q0sent : Z; sl_q0recv : Z;
+  sl_bad : bool
+}.
+
+Definition zcount_eq (a b : list Z) : bool :=
+  Nat.eqb (List.length a) (List.length b) && forallb (fun x => Nat.eqb (zcount x a) (zcount x b)) a.
+
+(** every SUBSCRIBE gets its SUBACK and every QoS 1 PUBLISH its PUBACK with the same id, however long the client
+    did not read; QoS 1 deliveries arrive (retransmitted until acknowledged); only QoS 0 copies may be missing *)
+Definition slow_prop (c : slow_case) : bool :=
+  (sl_subacks c =? sl_subs_sent c) && zcount_eq (sl_pubacks c) (sl_ids c) &&
+  (sl_q1 c =? sl_http1 c) && (sl_q0recv c <=? sl_q0sent c).
+
+Definition check_slow (c : slow_case) : result :=
+  let has_ids := negb (Nat.eqb (List.length (sl_ids c)) 0) in
+  let has_q1 := 0 <? sl_http1 c in
+  let dropped := sl_q0recv c <? sl_q0sent c in
+  (negb (sl_bad c) && sl_full c && slow_prop c, slow_prop c,
+   (1 + bN has_ids 1 + bN has_q1 2 + bN dropped 4)%N, 0%N).
+
+Definition explain_slow (c : slow_case) := (slow_prop c, c).
 
 (** * gen: object life cycle (Init, then spec updates through Inherit) - observations only, no model *)
 Record gen_case := {
